@@ -46,6 +46,15 @@ CHECKS = {
              "and invalid arguments, unresolvable link/include); for every transition that raises, all attributes "
              "and child lists (by identity) of every pooled object must be unchanged.",
         design="DESIGN.md 2.4, C06"),
+    "C08": dict(
+        engine="input",
+        category="model_checking",
+        technique="bounded-exhaustive enumeration of invalidity knobs against a reference implementation of the documented rules",
+        text="Every forest of <=3 Sections with all single invalidity knobs and all pairs (triples on one Section, thorough) "
+             "is validated as Document and from every Section and Property as root by the real Validation class; the set "
+             "of (object, issue kind, rank) is compared, kind by kind, with ref/validation.py (three-valued: MUST / MAY / "
+             "MUST NOT; clash groups n-1..n).",
+        design="DESIGN.md C08"),
     "C09": dict(
         engine="input",
         category="model_checking",
